@@ -80,7 +80,8 @@ def oracle(k, ops):
 def zoo_oracle(rng, n):
     fails, cnt = [], 0
     for _ in range(n):
-        name = rng.choice([x for x in zoo.ALL_NAMES if x not in ("CVIART", "iCVIFuzzy")])
+        name = rng.choice([x for x in zoo.ALL_NAMES if x not in ("CVIART", "iCVIFuzzy")]
+                          + ["SimpleARTMAP", "ARTMAP", "DeepSup", "DeepUnsup", "SMART"] + zoo.NESTED_NAMES)
         seed = rng.randrange(10 ** 9)
 
         def build():
@@ -93,7 +94,7 @@ def zoo_oracle(rng, n):
         idx = list(range(n_rows))
         batches = B.split_batches(rng, idx, rng.randrange(2, 4))
         mode = rng.choice(B.MODES)
-        eps = rng.choice([0.0, 1 / 1024])
+        eps = rng.choice([0.0, 0.0, 1 / 1024, 0.0625, 0.25])
         cnt += 1
 
         def run(plan, readonly=False):
@@ -174,7 +175,7 @@ def main():
                      "random histories (all compositions styles: one fit, 1-4 partial_fit batches, size-1 batches, re-fits, interleaved predict) on grid data; "
                      "relations checked on the implementation: batches vs one fit, re-fit vs fresh, read-only interleaving; non-trivial = distinct history reaching >= 2 categories",
                      ["exact-rational kernels", "single-epoch calls"])
-    zf, zn = zoo_oracle(C.make_rng(seed, "C06-zoo"), 80 if tier == "quick" else 800)
+    zf, zn = zoo_oracle(C.make_rng(seed, "C06-zoo"), 320 if tier == "quick" else 3200)
     for f in zf:
         kf = C.match_known("C06", f["signature"])
         if kf is not None:
